@@ -8,6 +8,7 @@ import random
 
 from vf import base, refsem, gen_docs, stubs, lemmas
 from vf.refsem import F, B
+from vf.props import c04
 from vf.props.c04 import Tag, _thaw, MAXLEN, MAXW, MAXOFF
 
 from prettyprinter import layout as L
@@ -51,6 +52,7 @@ class WidthCase(base.CaseBase):
 
     def run(self, leaves, offs, w, rw, smart):
         doc = refsem.build(self.shape, leaves, offs, self.anns)
+        c04.prelayout(doc, self.params)
         fn = L.layout_smart if smart else L.layout_fast
         if self.frac is not None:
             # the ribbon width as the documented formula defines it (Python's
@@ -220,6 +222,10 @@ def shape_cases(tier, seed, rule):
         out.append({'name': 'cur:' + n, 'family': 'width', 'params': {'shape': s},
                     'budget': 90.0 if tier == 'quick' else 300.0,
                     'twin': n in ('bracket2', 'nested-grp-r')})
+    for n, s in gen_docs.curated_classic():
+        if c04.wants_prelayout(s):
+            out.append({'name': 'pre:' + n, 'family': 'width', 'params': {'shape': s, 'prelayout': True},
+                        'budget': 90.0 if tier == 'quick' else 300.0})
     en = gen_docs.enumerated(1, False)
     for n, s in en:
         if refsem.contains_kind(s, ('grp',)):
